@@ -343,6 +343,9 @@ def run(eng, rep) -> None:
     from .lints import composite_text_keys
     composite_text_keys(eng, rep, "R09.7", ("fcp.verifier", "fcp_dbc", "fcp_can_c"), "two distinct declarations are reported as duplicates (a valid schema is rejected)")
     rep.rule("R09.6", "a by-name struct/enum lookup in a check is fed with the name the node refers to (.type), not the node's own name")
+    rep.rule("R09.8", "a cycle guard in a check forgets an element when the walk leaves it (reject-on-revisit with a grow-only set rejects diamonds)")
+    from .lints import grow_only_cycle_guard
+    grow_only_cycle_guard(eng, rep, "R09.8", ("fcp.verifier", "fcp_dbc", "fcp_can_c"), "a valid schema is refused")
     from .lints import name_kind_sinks
     name_kind_sinks(eng, rep, "R09.6", ("fcp.verifier", "fcp_dbc", "fcp_can_c", "fcp_cpp"), "the check looks for a struct called like the binding, so a binding whose name differs from its struct is rejected (or a dangling one accepted when a struct happens to be called like it)")
     rep.assume("list.count / len / in as specified by Python; order independence follows from the symmetric predicate forms (count, emptiness, membership)")
